@@ -35,10 +35,12 @@ ASSUMPTIONS = [
     "polynomial division is exercised under default retain options only, as the property states",
     "ordering-based entries (comparisons, maximum/minimum, amax/amin/argmax/argmin, sortable_proxy, lead_*) are compared only across settings that agree on sort_graded/sort_reverse",
     "str/repr/array_str/array_repr are compared only across settings that agree on all display_* options",
-    "inputs carry explicit names, so default_varname/force_number_suffix only matter where a function invents names",
+    "inputs carry explicit names in numeric order, so default_varname/force_number_suffix only matter where a function invents names and the monomial order does not depend on the storage layout",
 ]
 
-OG = PolyOperands(max_terms=4, max_exp=2, kinds="if", max_names=3)
+# names in numeric order: with an unordered name tuple the monomial order of the ordering-based functions is
+# relative to the storage layout, which re-alignment (and hence retain_names) changes - C07 owns the order itself
+OG = PolyOperands(max_terms=4, max_exp=2, kinds="if", max_names=3, sorted_names=True)
 BOOL_OPTS = ["retain_names", "retain_coefficients", "sort_graded", "sort_reverse",
              "display_graded", "display_reverse", "display_inverse", "force_number_suffix"]
 SKIP = {"apply_along_axis", "apply_over_axes", "to_sympy", "copyto"}
